@@ -144,7 +144,9 @@ func init() {
 	drivers["command"] = func(seed int64, n int, emit func(any)) error {
 		rng := rand.New(rand.NewSource(seed))
 		lower := []rune("abz09-_.éßλж日")
-		upper := []rune("ABZÉΛЖ")
+		// upper-case by the Unicode standard: general category Lu or the Other_Uppercase property (roman numerals,
+		// circled capitals); title-case letters (Lt) are neither and are left out (the property does not decide them)
+		upper := []rune("ABZÉΛЖⅠⅫⒶⓏ")
 		seg := func() string {
 			k := 1 + rng.Intn(3)
 			var s []rune
@@ -190,7 +192,7 @@ func init() {
 				}
 				var up []bool
 				for _, r := range s {
-					up = append(up, unicode.ToLower(r) != r)
+					up = append(up, unicode.IsUpper(r) || unicode.Is(unicode.Other_Uppercase, r))
 				}
 				if up == nil {
 					up = []bool{}
